@@ -55,7 +55,7 @@ func vCount(s []int, x int) int {
 
 // VSeqStep runs one list operation with arbitrary arguments on l, whose abstract content is pre,
 // and checks the result against the mathematical-sequence model of property C03.
-func VSeqStep(l List[int], pre []int, ext VExt) {
+func VSeqStep(l List[int], pre []int, ext VExt) []int {
 	op := v.CfgOr("op", -1)
 	if op < 0 {
 		op = v.Split(v.IntIn("op", 0, VOpCount-1), 0, VOpCount-1)
@@ -129,7 +129,7 @@ func VSeqStep(l List[int], pre []int, ext VExt) {
 		}
 		ext.Inv()
 		v.Assert(l.Size() == n, "C03:size")
-		return
+		return got
 	case VOpClear:
 		l.Clear()
 		want = []int{}
@@ -190,4 +190,14 @@ func VSeqStep(l List[int], pre []int, ext VExt) {
 	v.Assert(sz == len(got), "C15:size-values")
 	v.Assert(sz >= 0, "C15:size-nonneg")
 	v.Assert(l.Empty() == (sz == 0), "C15:empty")
+	return want
+}
+
+// VSeqHistory: D operations in a row from a freshly constructed list.
+func VSeqHistory(l List[int], ext VExt) {
+	var seq []int
+	D := v.CfgOr("D", 3)
+	for i := 0; i < D; i++ {
+		seq = VSeqStep(l, seq, ext)
+	}
 }
